@@ -113,7 +113,7 @@ def _run(cls, pv, op):
         elif op[0] == "del":
             del a.children
         else:
-            a.children = [non if x == F.NON else nodes[x] for x in op[2]]
+            a.children = [non if x == F.NON else (None if x == F.NONE else nodes[x]) for x in op[2]]
     except Exception as e:
         exc = e
     return nodes, exc
